@@ -323,3 +323,16 @@ Fixpoint ref_string (s : list Z) : option (list Z) :=
     else if (c <? 32) || (c =? 34) then None
     else option_map (cons c) (ref_string t)
   end.
+
+(* ---- a tree with the width and the signedness of its integers wiped out: two trees are equal (value_eq)
+        iff their wiped forms are identical (JsonProofsEq.value_eq_iff_blind).  This is the comparison the
+        check makes between the tree the implementation reads back and canon v: the property asks for an
+        equal tree, not for a width. ---- *)
+Fixpoint blind (v : value) : value :=
+  match v with
+  | JInt z | JInt64 z | JUInt z | JUInt64 z => JInt64 z
+  | JList l => JList (map blind l)
+  | JMap m => JMap (map (fun kx => (fst kx, blind (snd kx))) m)
+  | JArray l => JArray (map blind l)
+  | _ => v
+  end.
